@@ -80,8 +80,9 @@ def scenario(draw, methods=None, outcome=None, months=None, pipe_kind=None):
     hmin = draw(st.sampled_from([40.0, 60.0, 80.0, 100.0]))
     hmax = hmin + draw(st.sampled_from([10.0, 40.0, 75.0, 120.0]))
     ugt = bhe["soil"]["ugt"]
-    max_eft = max(ugt + 6.0, draw(_f(25.0, 40.0)))
-    min_eft = min(ugt - 4.0, draw(_f(-5.0, 10.0)))
+    # round limits (0 C freeze protection in particular) are what users type; one case in four uses them
+    max_eft = max(ugt + 6.0, draw(st.one_of(_f(25.0, 40.0), _f(25.0, 40.0), _f(25.0, 40.0), st.sampled_from([30.0, 35.0]))))
+    min_eft = min(ugt - 4.0, draw(st.one_of(_f(-5.0, 10.0), _f(-5.0, 10.0), _f(-5.0, 10.0), st.sampled_from([0.0, 0.0, 5.0]))))
     # load scale: calibrated (see loads_for) so that a chosen candidate at a chosen height just meets the limits;
     # 'inside' aims into the domain, 'tiny'/'huge' beyond its ends, 'edge' within 10 % of an end
     oc = outcome or draw(st.sampled_from(["inside", "inside", "inside", "tiny", "huge", "edge_small", "edge_large"]))
